@@ -219,3 +219,36 @@ def write_evidence(prop, tier, seed, coverage, assumptions, wall, violations, le
     ev = {"property_id": prop, "tier": tier, "seed": seed, "level": level, "coverage": coverage,
           "assumptions": assumptions, "wall_s": round(wall, 2), "violations": violations}
     json.dump(ev, open(os.path.join(VERIF, "evidence", f"{prop}.json"), "w"), indent=1)
+
+
+# ----------------------------------------------------------------------------- generic Tie-B executor
+def execute_diff(ops, ctx, nontrivial_key, flag_check=None, env=None, jobs=None):
+    """ops: list of (line, meta).  Runs harness and driver on the same lines, compares the result
+    bodies, checks the driver's self-check flags.  Returns the result dict ./check expects."""
+    lines = [o for o, _ in ops]
+    t0 = time.time()
+    with ThreadPoolExecutor(max_workers=2) as ex:
+        fg = ex.submit(run_ops, ctx["harness"], lines, jobs, env)
+        fl = ex.submit(run_ops, ctx["driver"], lines, jobs, None)
+        go, lean = fg.result(), fl.result()
+    mism, nontriv, dist, samples = [], set(), {}, []
+    for (line, meta), g, l in zip(ops, go, lean):
+        body, flags = split_flags(l if l is not None else "missing")
+        cat = meta.get("cat", line.split()[0])
+        dist[cat] = dist.get(cat, 0) + 1
+        k = nontrivial_key(line, meta, g)
+        if k is not None:
+            nontriv.add(k)
+        if len(samples) < 6 and k is not None and (len(samples) < 3 or meta.get("cat") not in [s.get("cat") for s in samples]):
+            samples.append({"op": line[:300], "go": (g or "")[:200], "model": body[:200], "cat": cat})
+        bad = None
+        if g != body:
+            bad = {"kind": "go-vs-model", "ops": [line], "go": (g or "")[:2000], "model": body[:2000], "cat": cat}
+        elif flag_check:
+            fb = flag_check(line, meta, flags)
+            if fb:
+                bad = {"kind": "model-self-check", "ops": [line], "go": (g or "")[:500], "model": l[:500], "why": fb, "cat": cat}
+        if bad:
+            mism.append(bad)
+    return {"evaluations": len(ops), "nontrivial": nontriv, "mismatches": mism, "samples": samples, "dist": dist,
+            "extra": {"correspondence_wall_s": round(time.time() - t0, 2)}}
